@@ -2,6 +2,7 @@ use serde_json::Value;
 
 use crate::engine::{Ctx, Outcome};
 
+pub mod c10;
 pub mod c14;
 
 pub struct Prop {
@@ -11,6 +12,10 @@ pub struct Prop {
 
 pub fn lookup(id: &str) -> Option<Prop> {
     Some(match id {
+        "C10" => Prop {
+            check: c10::check,
+            replay: c10::replay,
+        },
         "C14" => Prop {
             check: c14::check,
             replay: c14::replay,
